@@ -41,16 +41,19 @@ Create(a) ==
 NsRels == {"same", "extended", "truncated", "other_method", "method_prefix_only", "upper_case", "no_did_scheme"}
 \* how the initial state is spelled
 Encodings == {"canonical", "whitespace", "member_order", "padded", "trailing_bits", "tampered_char",
-              "not_base64url", "other_request", "update_request", "empty", "type_member_added"}
+              "not_base64url", "other_request", "update_request", "empty"}
 SuffixRels == {"matching", "other", "empty"}
-Forms == {"long", "short", "extra_segment"}
+Forms == {"long", "short"}
 
+
+\* the state and the suffix belong together: both of this document, or both of the other one
+\* (which is simply the other document's long-form DID)
+Consistent(p) == (p.enc = "canonical" /\ p.sfx = "matching") \/ (p.enc = "other_request" /\ p.sfx = "other")
 
 Resolves(p) ==
     /\ p.ns = "same"
     /\ p.form = "long"
-    /\ p.enc = "canonical"
-    /\ p.sfx = "matching"
+    /\ Consistent(p)
 
 \* resolution does not depend on what has been created (the handler is stateless)
 Resolve(p) ==
